@@ -38,7 +38,7 @@ TRUSTED_BASE = [
 ASSUMPTIONS = ['engines do not share Variable objects; simultaneously suspended queries of one engine use disjoint variables',
                'cases in which a match needs a cyclic term (model error code 2) are unspecified and skipped',
                'evaluate_bounded (interpreter-wide recursion limit) is outside the statement']
-CASE_TIMEOUT = 30
+CASE_TIMEOUT = 120
 COQ_CHUNK = 25
 FUEL = 4000
 
@@ -673,6 +673,9 @@ def gen_history(rng, case, eid, nops, base_facts):
     nextvar = [0]
     live = {}            # slot -> variables of the query in it
     mix = rng.random() < 0.5     # asserts may mention variables of suspended queries (else: same-engine oracle applies)
+    nfacts = {}          # rough number of facts per key, to steer next() towards generators that still have answers
+    est = {}             # slot -> rough number of answers left
+    rule_names = set(n for n, _ in RULE_PREDS)
     def fresh(n):
         r = list(range(nextvar[0], nextvar[0] + n))
         nextvar[0] += n
@@ -683,7 +686,11 @@ def gen_history(rng, case, eid, nops, base_facts):
             vs = vs + rng.choice(list(live.values()))
         return [rand_open(rng, vs, 2, 0.35) for _ in range(ar)]
     def query_goal():
-        name, ar = rng.choice(base_facts * 3 + FACT_PREDS + RULE_PREDS + [('s', 2), ('r', 1), ('zz', 1)])
+        have = sorted(k for k, c in nfacts.items() if c > 0)
+        if have and rng.random() < 0.5:
+            name, ar = rng.choice(have)
+        else:
+            name, ar = rng.choice(base_facts * 3 + FACT_PREDS + RULE_PREDS + [('s', 2), ('r', 1), ('zz', 1)])
         vs = fresh(max(1, ar))
         args = []
         for i in range(ar):
@@ -697,12 +704,14 @@ def gen_history(rng, case, eid, nops, base_facts):
     for (name, ar) in base_facts:
         for _ in range(rng.choice([2, 3, 4])):
             ops.append(['assert', True, name, fact_args(ar, False), rng.randrange(3)])
+            nfacts[(name, ar)] = nfacts.get((name, ar), 0) + 1
     nops += len(ops)
     while len(ops) < nops:
         r = rng.random()
         if r < 0.22:
             name, ar = rng.choice(FACT_PREDS)
             ops.append(['assert', rng.random() < 0.7, name, fact_args(ar), rng.randrange(3)])
+            nfacts[(name, ar)] = nfacts.get((name, ar), 0) + 1
         elif r < 0.30:
             name, ar = rng.choice(FACT_PREDS)
             vs = fresh(2)
@@ -719,6 +728,7 @@ def gen_history(rng, case, eid, nops, base_facts):
                 ops.append(['register', name, ar, rows])
         elif r < 0.48:
             ops.append(['clear'])
+            nfacts.clear()
         elif r < 0.55:
             ops.append(['atom', rng.choice(ATOMS + ['[]', 'p', 'new atom'])])
         elif r < 0.66 or not live:
@@ -726,8 +736,12 @@ def gen_history(rng, case, eid, nops, base_facts):
             name, args, vs = query_goal()
             ops.append(['start', q, name, args])
             live[q] = vs
+            est[q] = nfacts.get((name, len(args)), 0) + (2 if name in rule_names else 0)
         elif r < 0.88:
-            ops.append(['next', rng.choice(list(live))])
+            more = [q for q in live if est.get(q, 0) > 0]
+            q = rng.choice(more) if more and rng.random() < 0.75 else rng.choice(list(live))
+            est[q] = est.get(q, 0) - 1
+            ops.append(['next', q])
         elif r < 0.92:
             # look at variables between two steps: those of the suspended queries and a few others
             vs = [v for q in live for v in live[q]] + fresh(1)
@@ -777,7 +791,7 @@ def gen_case(rng, big=False):
     return case
 
 def gen(rng, tier):
-    n = 260 if tier == 'quick' else 4000
+    n = 260 if tier == 'quick' else 3000
     return [gen_case(rng, big=(tier != 'quick' and i % 10 == 0)) for i in range(n)]
 
 def builtin_corpus():
